@@ -537,6 +537,13 @@ def main(rep: Report, replay: dict | None) -> None:
         "images; traces = recorded real-code histories validated by TLC (replayed TLC paths covering "
         "every edge of the dump instance, simulated deep behaviours, seeded random histories)"
     )
+    import signal
+
+    def _watchdog(*_):
+        raise tlc.MachineryError("C11 watchdog: the check did not finish in time (hung request / op?)")
+
+    signal.signal(signal.SIGALRM, _watchdog)
+    signal.alarm(1200 if rep.tier == "quick" else 5400)
     t0 = time.time()
     if not replay and not os.environ.get("VERIF_C11_NOMC"):  # development aid only
         model_check(rep, T)
@@ -549,6 +556,7 @@ def main(rep: Report, replay: dict | None) -> None:
         else:
             run_all(rep, T, server, stats)
     finally:
+        signal.alarm(0)
         W.teardown()
     rep.extra["stats"] = dict(sorted(stats.items()))
 
